@@ -98,6 +98,28 @@ def check_output(out: dict, skip_class: bool, sort_keys: bool, dialect: str | No
     return None
 
 
+def _without_tags(data: Any) -> Any:
+    from pyoak.serialize import TYPE_KEY
+
+    if isinstance(data, dict):
+        return {k: _without_tags(v) for k, v in data.items() if k != TYPE_KEY}
+    if isinstance(data, (list, tuple)):
+        return [_without_tags(v) for v in data]
+    return data
+
+
+def content_differs(out: Any, baseline: Any, skip_class: bool) -> str | None:
+    """An option-carrying as_dict() without a dialect writes the same mappings as the default call
+    (key order and type tags aside): options given to EARLIER calls must not add or drop keys."""
+    want = _without_tags(baseline) if skip_class else baseline
+    if out == want:
+        return None
+    for (pa, a), (pb, b) in zip(_walk(out), _walk(want)):
+        if set(a) != set(b):
+            return f"keys at {pa}: got {sorted(a)}, default output has {sorted(b)}"
+    return "content differs from the default output"
+
+
 def _corrupt(data: Any, how: str, where: int) -> Any:
     from pyoak.serialize import TYPE_KEY
 
@@ -202,6 +224,11 @@ def make_harness(n_calls: int, first_kind: str, later_kinds: list[str] | None = 
                     scenario.update(problem=err)
                     combo = "+".join(sorted(k for k in ("skip_class", "sort_keys") if vals.get(k)) + ([dialect] if dialect else []) + (["optimized_sources"] if "index-based" in err else []))
                     e.fail(f"nested-object-ignores-option:{combo}", scenario=scenario)
+                if kind == "as_dict" and dialect is None and not vals.get("optimized", False):
+                    diff = content_differs(out, baseline, vals.get("skip_class", False))
+                    if diff:
+                        scenario.update(problem=diff)
+                        e.fail("option-carrying-call-writes-other-content-than-the-default-call", scenario=scenario)
             # ---- nothing afterwards
             if not _slots_default():
                 e.fail("option-slots-not-cleared" + (":after-exception" if raised else ""), scenario=scenario)
@@ -264,17 +291,51 @@ def user_dialect_harness(e):
     class TaggedInts(Dialect):
         serialization_strategy = {int: {"serialize": lambda v: f"i{v}", "deserialize": lambda s: int(str(s)[1:])}}
 
+    class OmitNone(Dialect):
+        omit_none = True
+
+    class OmitDefault(Dialect):
+        omit_default = True
+
+    from pyoak.serialize import SerializationOption
+
     tno = e.choice(len(TREES), "tree")
     root = build(TREES[tno])
     baseline = copy.deepcopy(root.as_dict())
     kind = e.pick(["as_dict", "to_yaml"], "call")
-    scenario: dict[str, Any] = {"tree": describe(TREES[tno]), "call": kind}
+    dname = e.pick(["ints-as-tagged-strings", "omit_none", "omit_default"], "user_dialect")
+    D = {"ints-as-tagged-strings": TaggedInts, "omit_none": OmitNone, "omit_default": OmitDefault}[dname]
+    b_skip, b_sort = e.bool("skip_class0"), e.bool("sort_keys0")
+    opts = {SerializationOption.SKIP_CLASS: b_skip, SerializationOption.SORT_KEYS: b_sort}
+    scenario: dict[str, Any] = {"tree": describe(TREES[tno]), "call": kind, "user_dialect": dname}
     if kind == "as_dict":
-        out = root.as_dict(mashumaro_dialect=TaggedInts)
+        out = root.as_dict(mashumaro_dialect=D, serialization_options=opts)
     else:
         import yaml
 
-        out = yaml.load(root.to_yaml(mashumaro_dialect=TaggedInts), Loader=yaml.SafeLoader)
+        out = yaml.load(root.to_yaml(mashumaro_dialect=D, serialization_options=opts), Loader=yaml.SafeLoader)
+    vals = {n: (True if b else False) for n, b in (("skip_class", b_skip), ("sort_keys", b_sort)) if _decided(e, b)}
+    scenario["options"] = vals
+    if dname != "ints-as-tagged-strings":
+        # the dialect omits keys; the options of the same call still apply to what is written
+        err = check_output(out, vals.get("skip_class", False), vals.get("sort_keys", False), None, ordered=kind == "as_dict")
+        if err and "type tag missing" not in err:
+            scenario.update(problem=err)
+            e.fail("nested-object-ignores-option:with-user-dialect", scenario=scenario)
+        # nothing afterwards: a later call without the dialect, with or without options, writes
+        # the default content
+        b_skip2, b_sort2 = e.bool("skip_class1"), e.bool("sort_keys1")
+        out2 = root.as_dict(serialization_options={SerializationOption.SKIP_CLASS: b_skip2, SerializationOption.SORT_KEYS: b_sort2})
+        vals2 = {n: (True if b else False) for n, b in (("skip_class", b_skip2), ("sort_keys", b_sort2)) if _decided(e, b)}
+        scenario["later_options"] = vals2
+        err = check_output(out2, vals2.get("skip_class", False), vals2.get("sort_keys", False), None, ordered=True) or content_differs(out2, baseline, vals2.get("skip_class", False))
+        if err:
+            scenario.update(problem=err)
+            e.fail("later-call-affected-by-the-dialect-of-an-earlier-call", scenario=scenario)
+        if not _slots_default() or root.as_dict() != baseline:
+            e.fail("later-default-call-affected", scenario=scenario)
+        e.distinct((tno, kind, dname, tuple(sorted(vals.items())), tuple(sorted(vals2.items()))))
+        return scenario
     raw = []
 
     def walk(o, path="$"):
